@@ -1350,6 +1350,13 @@ package kafka
 // partition (the committed offset, or StartOffset when there is none) - an entry is never taken from another topic.
 //@ iface coordinator.offsetFetch
 //@   trusted sends OffsetFetch to the group coordinator
+// Each assigned partition starts at the committed offset the coordinator reported for it, and at StartOffset only when
+// none was reported for that very partition (what was or was not reported for another partition does not matter).
+//@ func (*ConsumerGroup).makeAssignments
+//@   option noframe
+//@   option only inv-step
+//@   modifies heap
+//@   loop 1 step (haskey(offsets, topic) && haskey(offsets[topic], int(partition)) ==> offset == offsets[topic][int(partition)]) && (!(haskey(offsets, topic) && haskey(offsets[topic], int(partition))) ==> offset == cg.config.StartOffset)
 //@ func (*ConsumerGroup).fetchOffsets
 //@   option noframe
 //@   modifies heap
